@@ -27,7 +27,9 @@ fn same_parsed(a: &ParsedMessage, b: &ParsedMessage) -> bool {
 pub fn drive_async(stream: &Rc<Vec<u8>>, with_storage: bool, exp: &Expected, ch: &Shared, fixed: Option<Vec<u32>>, full_menu_limit: usize, big_buffers: bool) -> Vec<u8> {
     let src = ScriptedRead { data: stream.clone(), off: 0, ch: ch.clone(), full_menu_limit, fixed, fixed_pos: 0 };
     let mut reader = if big_buffers { DltStreamReader::new(src, with_storage) } else { DltStreamReader::with_capacity(CAP, CAP, src, with_storage) };
-    let waker = noop_waker();
+    // counting waker: a Pending without any wake-up since the poll started is a lost wake-up
+    let wakes = std::sync::Arc::new(crate::bulk::CountWaker::default());
+    let waker = futures::task::waker(wakes.clone());
     let mut cx = Context::from_waker(&waker);
     let mut obs = Vec::with_capacity(exp.pieces.len() + 1);
     for i in 0..=exp.pieces.len() {
@@ -35,9 +37,13 @@ pub fn drive_async(stream: &Rc<Vec<u8>>, with_storage: bool, exp: &Expected, ch:
             let mut fut = Box::pin(read_message_async(&mut reader, None));
             let mut polls = 0u32;
             loop {
+                let before = wakes.0.load(std::sync::atomic::Ordering::Relaxed);
                 match fut.as_mut().poll(&mut cx) {
                     Poll::Ready(r) => return Some(r),
                     Poll::Pending => {
+                        if wakes.0.load(std::sync::atomic::Ordering::Relaxed) == before {
+                            return None; // no wake-up arranged: would hang a wake-driven executor
+                        }
                         polls += 1;
                         if polls > POLL_BUDGET {
                             return None;
@@ -102,7 +108,7 @@ fn check(spec: &StreamSpec, r: &Ref, obs: &[u8], schedule: String, loc: &mut Loc
     let bad = if obs.contains(&O_PANIC) {
         Some(("async reader panics", "the async reader panicked".to_string()))
     } else if obs.contains(&O_LIVELOCK) {
-        Some(("async reader never completes", format!("a read_message future was still pending after {} polls", POLL_BUDGET)))
+        Some(("async reader never completes", format!("a read_message future returned Pending without arranging a wake-up, or was still pending after {} polls", POLL_BUDGET)))
     } else if obs != r.blocking.as_slice() {
         Some(("async reader differs from the blocking reader", format!("async results {:?} but the blocking reader gives {:?}", obs.iter().map(|c| name(*c)).collect::<Vec<_>>(), r.blocking.iter().map(|c| name(*c)).collect::<Vec<_>>())))
     } else {
@@ -181,6 +187,7 @@ fn run_explore(spec: &StreamSpec, bound: u32, full_menu_limit: usize, max_exec: 
 }
 
 pub fn run(ctx: &Ctx) {
+    ctx.enable_trace_pass(ctx.tier.pick(3000u64, 30000u64));
     ctx.set_rule("case = (byte stream, schedule of poll_read results); streams as in C07 (message sequences, truncations, hostile length fields); schedules: every choice sequence with at most d deviations over {Ready(k) for the menu of k, Pending}, every uniform chunk size alone and with a Pending before every read, ALL compositions for short streams (alone and with a single Pending at every position); oracle = the blocking reader on the same bytes (default schedule) and the C07 cutter; a state is (stream, bytes delivered, messages emitted, deviations used) at a choice point");
     ctx.assume("the harness re-polls after every Pending (the source wakes the waker before returning Pending): state surviving pending polls and arbitrary chunking is checked, not wake-up registration, which is the source's duty");
     ctx.assume("with_capacity(65551, 65551, ..) for bulk exploration (futures' BufReader zero-fills its buffer: 480 us per `new`); a d<=1 subset uses DltStreamReader::new");
